@@ -331,6 +331,34 @@ def i4(prog, ctx):
             ctx.ok("I4", "%s:%d" % (DSP, pr[0].lineno), "both GFF printers of the task share the exon id storage")
 
 
+def i4_callers(prog, ctx):
+    """At every lookup the key's chromosome and strand belong to the object the feature's coordinates were taken from."""
+    from ..engine.dataflow import dependency_roots
+    n = 0
+    for m, q, f in prog.all_functions():
+        for c in walk_no_nested(f):
+            if not (isinstance(c, ast.Call) and isinstance(c.func, ast.Attribute) and c.func.attr == "get_id"
+                    and "id_storage" in src(c.func.value) and len(c.args) == 3):
+                continue
+            n += 1
+            a_chr, a_feat, a_strand = c.args
+            oc = src(a_chr.value) if isinstance(a_chr, ast.Attribute) and a_chr.attr == "chr_id" else None
+            os_ = src(a_strand.value) if isinstance(a_strand, ast.Attribute) and a_strand.attr == "strand" else None
+            seen_names = set()
+            roots = dependency_roots(f, [a_feat], through_loops=True, visited=seen_names)
+            roots = roots | {x.split('.')[0] for x in seen_names if not x.startswith('=')}
+            if oc is None or os_ is None or oc != os_:
+                ctx.fail("I4", c, q, src(c), "the exon-id lookup key takes chromosome and strand from %s and %s: they must be the chr_id and "
+                         "strand of one and the same transcript object" % (src(a_chr), src(a_strand)))
+            elif oc.split(".")[0] not in roots:
+                ctx.fail("I4", c, q, src(c), "the exon coordinates `%s` come from %s, but chromosome and strand of the lookup key are taken from "
+                         "`%s`: an exon of a transcript whose strand differs from that object's is looked up under the wrong key, so its "
+                         "reference exon id is not preserved (a fresh or foreign id is printed)" % (src(a_feat), sorted(r for r in roots if "." not in r)[:6], oc))
+            else:
+                ctx.ok("I4", "%s:%d" % (m.rel, c.lineno), "%s: lookup key (chr, exon, strand) all taken from `%s`" % (q, oc))
+    ctx.floor("I4", "exon id lookup call sites", n, 1)
+
+
 def i5(prog, ctx):
     """Identifier tables and distributors hold no process-wide (class-level / module-level) mutable state."""
     from ..engine import carried
@@ -378,6 +406,7 @@ def run(prog, ctx):
                    "reference ids stored verbatim; printers of one task share one storage")
     n1 = i1(prog, ctx)
     i2(prog, ctx)
+    i4_callers(prog, ctx)
     i3(prog, ctx)
     i4(prog, ctx)
     i5(prog, ctx)
